@@ -296,6 +296,8 @@ class Sim:
     def hook_p(self, label, hname):
         return self.cfg["p_hook"]
 
+    replay_hook_failed = frozenset()  # (families that inject should_replay failures install a set)
+
     def hook_raise_p(self, label, hname):
         return self.cfg.get("p_hook_raise", 0.0) if hname == "on_message" else 0.0
 
